@@ -1,20 +1,44 @@
 #!/venv/bin/python
-"""re-run the surviving mutants of selftest/mutants.jsonl (after strengthening the checks); rewrites their entries"""
-import json, sys, os
-sys.path.insert(0, '/verif/tools')
-import mutate
-rows=[json.loads(l) for l in open('/verif/selftest/mutants.jsonl')]
-out=[]
-os.makedirs('/tmp/psvc-mutants2', exist_ok=True)
+"""re-run the surviving mutants of a selftest/*.jsonl file (after strengthening the checks); rewrites their entries.
+   tools/rerun_survivors.py [selftest/mutants.jsonl] [--defaults]"""
+import json
+import os
+import sys
+
+sys.path.insert(0, "/verif/tools")
+import mutate  # noqa: E402
+
+path = next((a for a in sys.argv[1:] if not a.startswith("--")), "/verif/selftest/mutants.jsonl")
+defaults = "--defaults" in sys.argv
+rows = [json.loads(l) for l in open(path)]
+out = []
+work = "/tmp/psvc-mutants-rerun"
+os.makedirs(work, exist_ok=True)
+if defaults:
+    import mutate_defaults
+
+    table = {(f, ln, what): text for f, ln, what, text in mutate_defaults.mutants()}
+cache = {}
 for r in rows:
-    if r['caught_by']:
-        out.append(r); continue
-    ms = {(ln, what): text for ln, what, text in mutate.mutants_of(os.path.join(mutate.REPO, mutate.PKG, r['file']))}
-    key=(r['line'], r['mutation'])
-    if key not in ms:
-        r['note']='source changed since: mutant no longer defined at this line'; out.append(r); continue
-    res = mutate.run_mutant(r['file'], r['line'], r['mutation'], ms[key], 12, '/tmp/psvc-mutants2')
-    print(r['file'], r['line'], r['mutation'], '->', res['caught_by'] or {p:c['exit'] for p,c in res['checks'].items()}, flush=True)
+    if r["caught_by"]:
+        out.append(r)
+        continue
+    if defaults:
+        text = table.get((r["file"], r["line"], r["mutation"]))
+    else:
+        if r["file"] not in cache:
+            cache[r["file"]] = {(ln, what): text for ln, what, text in mutate.mutants_of(os.path.join(mutate.REPO, mutate.PKG, r["file"]))}
+        text = cache[r["file"]].get((r["line"], r["mutation"]))
+    if text is None:
+        r["note"] = "source changed since: mutant no longer defined at this line"
+        out.append(r)
+        continue
+    res = mutate.run_mutant(r["file"], r["line"], r["mutation"], text, 12, work)
+    print(r["file"], r["line"], r["mutation"], "->", res["caught_by"] or {p: c["exit"] for p, c in res["checks"].items()}, flush=True)
     out.append(res)
-with open('/verif/selftest/mutants.jsonl','w') as f:
-    for r in out: f.write(json.dumps(r)+'\n')
+with open(path, "w") as f:
+    for r in out:
+        f.write(json.dumps(r) + "\n")
+import shutil
+
+shutil.rmtree(work, ignore_errors=True)
